@@ -245,6 +245,16 @@ def sim_glob(pathname, *a, **kw):
 
 
 def sim_sleep(secs):
+    """simulated time: the actor is not runnable until the hub's clock has advanced by `secs` (it advances only when nothing
+    else can run); costs no wall time"""
+    if STATE.get("chan") is None:
+        return None
+    try:
+        d = float(secs)
+    except (TypeError, ValueError):
+        d = 0.0
+    ans = event("sleep", "<sleep>", d=d)
+    after_event(ans)
     return None
 
 
